@@ -31,7 +31,21 @@ func (f *Frame) callOperands(cc *ssa.CallCommon) (Val, []Val) {
 
 func (f *Frame) execCall(cc *ssa.CallCommon, pos token.Pos, instr ssa.Value) Val {
 	fn, args := f.callOperands(cc)
-	return f.execCallWith(cc, pos, fn, args)
+	r := f.execCallWith(cc, pos, fn, args)
+	if f.top && f.fc != nil && len(f.fc.After) > 0 {
+		if callee := cc.StaticCallee(); callee != nil && callee.Pkg != nil {
+			for _, key := range []string{callee.Pkg.Pkg.Name() + "." + callee.Name(), callee.Name()} {
+				for i, as := range f.fc.After[key] {
+					env := f.specEnv(f.st, f.entrySt, true)
+					g := env.evalBool(as.Expr)
+					f.oblige("assert", fmt.Sprintf("after-%s.%d", callee.Name(), i), g, pos, as.Props, as.Text)
+					c := f.c
+					c.assume(implies(f.reach, g))
+				}
+			}
+		}
+	}
+	return r
 }
 
 func resultVal(sig *types.Signature, vs []Val) Val {
@@ -635,7 +649,7 @@ type viewField struct {
 func (f *Frame) viewField(p *Path) (viewField, bool) { return f.viewFieldIn(p, f.st) }
 
 func (f *Frame) viewFieldIn(p *Path, st *State) (viewField, bool) {
-	if p.View == nil || len(p.Steps) == 0 {
+	if len(p.Steps) == 0 {
 		return viewField{}, false
 	}
 	last := p.Steps[len(p.Steps)-1]
@@ -646,6 +660,19 @@ func (f *Frame) viewFieldIn(p *Path, st *State) (viewField, bool) {
 	base.Steps = p.Steps[:len(p.Steps)-1]
 	base.View = nil
 	nat := f.c.naturalType(&base)
+	if p.View == nil {
+		// a genuine GoSlice / GoString location: a field access is a component of the header value
+		var vs *types.Struct
+		k := ""
+		if isGoSliceLike(nat) {
+			k, vs = "slice", nat.Underlying().(*types.Struct)
+		} else if isGoStringLike(nat) {
+			k, vs = "string", nat.Underlying().(*types.Struct)
+		} else {
+			return viewField{}, false
+		}
+		return viewField{f: f, st: st, base: &base, kind: k, field: last.Field, vt: vs.Field(last.Field).Type()}, true
+	}
 	k := viewKind(nat, p.View)
 	if k == "" {
 		panic(unsupported(fmt.Sprintf("reinterpretation of %s as %s", nat, p.View)))
@@ -663,7 +690,10 @@ func (v viewField) load() Val {
 	case "slice":
 		switch v.field {
 		case 0:
-			et := c.naturalType(v.base).Underlying().(*types.Slice).Elem()
+			var et types.Type = types.Typ[types.Uint8]
+			if sl, ok := c.naturalType(v.base).Underlying().(*types.Slice); ok {
+				et = sl.Elem()
+			}
 			off := fmt.Sprintf("(xoff %s)", cur)
 			return Val{T: v.vt, P: &Path{Kind: rootArr, T: et, Ref: fmt.Sprintf("(sbase %s)", cur), Steps: []Step{{IsIdx: true, Idx: off, Raw: true}},
 				Lo: off, Hi: c.idxAdd(off, fmt.Sprintf("(xcap %s)", cur))}}
